@@ -194,7 +194,12 @@ fn scat_tags(c: &SCat) -> String {
 }
 
 // ------------------------------------------------------------------ real catalog -> Coq term
-fn st(s: &str) -> String { cbytes(s.as_bytes()) }
+fn st(s: &str) -> String {
+    let b = s.as_bytes();
+    // a long run of one byte (the name-length boundary cases) is printed as (rep b n): Corr/C40.v
+    if b.len() >= 48 && b.iter().all(|x| *x == b[0]) { return format!("(rep {} {})", b[0], b.len()); }
+    cbytes(b)
+}
 fn ost(s: Option<&str>) -> String { match s { Some(x) => format!("(Some {})", st(x)), None => "None".into() } }
 fn act_term(a: Option<ReferentialAction>) -> &'static str {
     match a { None => "None", Some(ReferentialAction::Cascade) => "(Some RCascade)", Some(ReferentialAction::Restrict) => "(Some RRestrict)",
@@ -425,9 +430,18 @@ fn boundary_scats(thorough: bool) -> Vec<SCat> {
     v.push(root_with(vec![t2]));
     // name lengths around one byte / the u16 field
     let mut lens = vec![0usize, 1, 127, 128, 255, 256, 257];
-    if thorough { lens.extend([65534usize, 65535]); }
+    if thorough { lens.push(65535); }
     for n in lens {
         let nm = "n".repeat(n);
+        if n > 60000 {
+            // the same boundary, one field at a time (keeps the case small enough to evaluate quickly)
+            let mut c = col("c", 20); c.dflt = Some(nm.clone());
+            v.push(root_with(vec![tab(5, &nm, vec![c])]));
+            let mut t = tab(5, "t", vec![col(&nm, 20)]);
+            t.idx = vec![SIndex { name: nm.clone(), cols: vec![], unique: false, hnsw: false, where_: None }];
+            v.push(root_with(vec![t]));
+            continue;
+        }
         let mut c = col(&nm, 20); c.dflt = Some(nm.clone()); c.constrs = vec![SConstr::Check(nm.clone()), SConstr::Fk(nm.clone(), nm.clone(), 1, 2)];
         let mut t = tab(5, &nm, vec![c]);
         t.pk = Some(vec![nm.clone()]);
